@@ -19,7 +19,7 @@ func init() {
 	Register("C19", &Info{
 		Run:   runC19,
 		Quick: 6000, Thor: 1000000,
-		Rule: "a world = a history of 2-6 connections over one ClientSessionCache (capacity 16, or exactly the 2-3 entries the two server names need; link latency 0-250 ms so that clocks tick inside a handshake): one fingerprint (session_ticket / pre_shared_key parrots, HelloGolang, any parrot by stratum; optionally a different fingerprint per connection, Roller style, among them a hand-written TLS 1.2 spec with session_ticket but without extended_master_secret), one server (repository or std) at TLS 1.2 or 1.3 with stable ticket keys, optionally forcing HelloRetryRequest, two server names; faults between/inside connections: connection aborted at a drawn byte offset of the server's flight (only the cache and the server's ticket keys survive), client+server clock jump (hours to weeks, past the 7-day ticket lifetime), server ticket-key rotation, a flipped stored byte in the cached session's secret (that connection may fail, the next one may not); connections optionally call BuildHandshakeState explicitly (and SetClientRandom, or reduce Hello.CipherSuites to one TLS 1.3 suite so that a session made under one suite meets a server selecting another) before Handshake; oracle: (R1) every connection without an injected abort completes and echoes - a failed resumption attempt degrades to a full handshake; (R2) after a success to the same name with the same fingerprint, no rotation, clock advance < 6 days and the needed extension in the spec, the next connection resumes on both sides; (R4) a name with no earlier success is never offered a ticket or PSK; (R5) when a PSK is still offered in the second ClientHello after a HelloRetryRequest, that hello differs from the first only in key_share, cookie, padding and the PSK binder (same identity, same binder length) and pre_shared_key stays last; pre_shared_key last and hello well-formed (strict grammar); non-trivial = a later connection offered a ticket/PSK; distinct = (fingerprints, server, fault plan, names)",
+		Rule: "a world = a history of 2-6 connections over one ClientSessionCache (capacity 16, or exactly the 2-3 entries the two server names need; link latency 0-250 ms so that clocks tick inside a handshake): one fingerprint (session_ticket / pre_shared_key parrots, HelloGolang, any parrot by stratum; optionally a different fingerprint per connection, Roller style, among them a hand-written TLS 1.2 spec with session_ticket but without extended_master_secret), one server (repository or std) at TLS 1.2 or 1.3 with stable ticket keys, optionally forcing HelloRetryRequest, two server names (15% of the worlds fronted: one spoofed SNI and cache key for all connections, the names being InsecureServerNameToVerify values of which the second is covered by no certificate - such a connection must fail and must not offer the other name's session); faults between/inside connections: connection aborted at a drawn byte offset of the server's flight (only the cache and the server's ticket keys survive), client+server clock jump (hours to weeks, past the 7-day ticket lifetime), server ticket-key rotation, a flipped stored byte in the cached session's secret (that connection may fail, the next one may not); connections optionally call BuildHandshakeState explicitly (and SetClientRandom, or reduce Hello.CipherSuites to one TLS 1.3 suite so that a session made under one suite meets a server selecting another) before Handshake; oracle: (R1) every connection without an injected abort completes and echoes - a failed resumption attempt degrades to a full handshake; (R2) after a success to the same name with the same fingerprint, no rotation, clock advance < 6 days and the needed extension in the spec, the next connection resumes on both sides; (R4) a name with no earlier success is never offered a ticket or PSK; (R5) when a PSK is still offered in the second ClientHello after a HelloRetryRequest, that hello differs from the first only in key_share, cookie, padding and the PSK binder (same identity, same binder length) and pre_shared_key stays last; pre_shared_key last and hello well-formed (strict grammar); non-trivial = a later connection offered a ticket/PSK; distinct = (fingerprints, server, fault plan, names)",
 		Assumptions: []string{"ticket lifetime boundary: resumption is required only when < 6 days passed since the oldest full handshake the cached session may descend from (since the last key rotation or failed resumption); no claim is made between 6 and 8 days",
 			"the TLS 1.3 NewSessionTicket is processed because every connection reads its echoed application data"},
 		Real: []string{"utls client and lruSessionCache from /repo", "utls or std server (real ticket sealing)"},
@@ -97,6 +97,22 @@ func runC19(c *Ctx) {
 	peer := ch.Pick(2, "peer")
 	forceHRR := ch.Bool(20, "hrr")
 	names := []string{"a.test", "b.test"}
+	// fronted worlds: every connection sends the same (spoofed) SNI, which is then also the cache
+	// key, and authenticates the server against its own InsecureServerNameToVerify - the second of
+	// which no certificate of the server covers. What keeps a session of the first name away from a
+	// connection for the second is the library's re-check of the cached certificate alone.
+	fronted := ch.Bool(15, "fronted")
+	const frontName, uncovered = "front.test", "nomatch.test"
+	if fronted {
+		names[1] = uncovered
+		c.Probe("fronted-world")
+	}
+	cacheKey := func(name string) string {
+		if fronted {
+			return frontName
+		}
+		return name
+	}
 	type step struct {
 		id      IDInfo
 		name    string
@@ -175,7 +191,7 @@ func runC19(c *Ctx) {
 		}
 		corrupted := false
 		if s.corrupt {
-			if cs, ok := cache.Get(s.name); ok && cs != nil {
+			if cs, ok := cache.Get(cacheKey(s.name)); ok && cs != nil {
 				if m := append([]byte(nil), cs.MasterSecret()...); len(m) > 0 {
 					m[ch.Pick(len(m), "corrupt-pos")] ^= 0x40
 					cs.SetMasterSecret(m)
@@ -186,6 +202,9 @@ func runC19(c *Ctx) {
 		}
 		plan = append(plan, fmt.Sprintf("%s/%s/abort=%d/jump=%v/rot=%v/corrupt=%v/prebuild=%d", s.id.Name, s.name, s.abortAt, s.jump, s.rotate, corrupted, s.prebuild))
 		cfg := &tls.Config{ServerName: s.name, RootCAs: Roots(), ClientSessionCache: cache, OmitEmptyPsk: true, Time: now}
+		if fronted {
+			cfg.ServerName, cfg.InsecureServerNameToVerify = frontName, s.name
+		}
 		abortAt := s.abortAt
 		var cspec *tls.ClientHelloSpec
 		if s.id.Name == customNoEMS {
@@ -239,6 +258,9 @@ func runC19(c *Ctx) {
 		aborted := o.Link.BA.Fired["reset"] > 0
 		if corrupted {
 			pendingCorrupt[s.name] = true
+			if fronted {
+				pendingCorrupt[names[0]] = true // the one cache entry belongs to the covered name
+			}
 		}
 		if aborted {
 			c.Fault("abort-conn", 0) // counted through Fired already
@@ -269,6 +291,18 @@ func runC19(c *Ctx) {
 			}
 		}
 		ok := o.CDone && o.SDone && string(o.CRead) == "ping-pong"
+		if fronted && s.name == uncovered {
+			// no certificate of this server covers the name: the connection must fail (and, above,
+			// must not have offered anything); the sessions of the other name stay where they are,
+			// but nothing is demanded of the next connection
+			if o.CDone {
+				c.Violate("completed-for-a-name-the-certificate-does-not-cover resumed="+fmt.Sprint(o.CState.DidResume), "%s", detail())
+				break
+			}
+			c.Probe("fronted-uncovered-name-refused")
+			delete(last, names[0])
+			continue
+		}
 		if pendingCorrupt[s.name] && offered {
 			// the handshake that offers the corrupted session may fail; the connection after it may not
 			if !(o.CDone && o.SDone) {
